@@ -17,7 +17,7 @@ SHAPES = [[1], [3], [2, 2], [2], []]
 KINDS = ["f32", "f32", "f64", "i64", "param", "none", "empty0", "uninit"]
 KIND_DTYPE = {"f32": "float32", "f64": "float64", "i64": "int64", "param": "float32",
               "none": None, "empty0": "float32", "uninit": "float32"}
-PAIRS = ["previous", "next", "nearest", "linear_fwd", "linear_bwd", "expdecay", "expratedecay"]
+PAIRS = ["previous", "next", "nearest", "linear_fwd", "linear_bwd", "expdecay", "expratedecay", "linear_fwd_adj", "linear_bwd_adj"]
 
 
 def _tt(x, dtype):
@@ -467,6 +467,10 @@ def _make_storage(kind, shape, initial):
 
 
 # ====================================================================== record run
+def _adjust(x):
+    return x * 0.5 + 1.0
+
+
 class _SpyInterp:
     def __init__(self):
         self.calls = []
@@ -1041,6 +1045,11 @@ class _RecordRun:
             fi, fe = F.interp_linear, F.extrap_linear_forward
         elif name == "linear_bwd":
             fi, fe = F.interp_linear, F.extrap_linear_backward
+        elif name == "linear_fwd_adj":
+            # the documented optional adjustment of the anchoring slot: the round trip holds for any adjustment
+            fi, fe, kw_e = F.interp_linear, F.extrap_linear_forward, {"adjust": _adjust}
+        elif name == "linear_bwd_adj":
+            fi, fe, kw_e = F.interp_linear, F.extrap_linear_backward, {"adjust": _adjust}
         elif name == "expdecay":
             fi, fe = F.interp_expdecay, F.extrap_expdecay
             kw_i = kw_e = {"time_constant": tc}
